@@ -366,6 +366,10 @@ def s16(led, rid, ctx):
               "all_different does not post binary_not_equals on the two loop indices")
 
 
+# justified exceptions of S18 / S19: "<Type>::<method>" or "new_<ctor>" -> one line of reason
+# (a fast path whose condition has been argued correct by hand).  Empty on the pinned tree.
+JUSTIFIED = {}
+
 POSTING = ("add_clause", "add_propagator", "add_tagged_propagator", "implied_by", "post", "add_nogood", "new_propagator")
 
 
@@ -410,6 +414,9 @@ def s18(led, rid, ctx):
                 if not posted and not any(b in heads for b in p.blocks) and silent is None:
                     silent = ", ".join("%s = %s" % (show(c)[:50], v) for c, v, o in p.conds) or "unconditionally"
             n += 1
+            if silent is not None and "%s::%s" % (w, meth) in JUSTIFIED:
+                led.ok(rid, "%s::%s:every-Ok-path-posts" % (w, meth), f.span, "JUSTIFIED: " + JUSTIFIED["%s::%s" % (w, meth)])
+                continue
             led.check(silent is None and paths > 0, rid, "%s::%s:every-Ok-path-posts" % (w, meth), f.span,
                       "%d path summaries" % paths,
                       "%s::%s returns Ok(()) without posting anything when %s: for those inputs the constraint is "
@@ -444,6 +451,9 @@ def s19(led, rid, ctx):
                         eng.setdefault(h.name, c.span)
         n += 1
         sets[f.name] = sorted(eng)
+        if len(eng) != 1 and f.name in JUSTIFIED:
+            led.ok(rid, "%s:one-engine-constructor" % f.name, f.span, "JUSTIFIED: " + JUSTIFIED[f.name])
+            continue
         led.check(len(eng) == 1, rid, "%s:one-engine-constructor" % f.name, f.span, ", ".join(sorted(eng)),
                   "Solver::%s reaches %s: which kind of domain is created depends on a branch in the API layer "
                   "(%s); if that branch misjudges the input (duplicates, order, emptiness) the variable gets values "
